@@ -45,7 +45,10 @@ def load_grammar():
     rc, out, err = lib.impl_python(IMPL, [lib.REPO, 'grammar'], extra_env={'VRT_REPO': lib.REPO, 'VERIF_REPO': lib.REPO})
     if rc != 0:
         raise RuntimeError('grammar dump failed:\n' + err[-3000:])
-    return json.loads(out)
+    g = json.loads(out)
+    KEYWORDS.clear()
+    KEYWORDS.update(kw for tn, kw in g['kwtext'].items() if g['kwtype'].get(tn) in (2, 4))
+    return g
 
 
 # ----------------------------------------------------------------------------- case generation
@@ -161,10 +164,20 @@ def gen_explore_cases(tier, g, rnd):
 BACKTICK_RE = re.compile(r'`((?:[^`]|``)+)`')
 
 
+KEYWORDS: set = set()      # reserved + partial reserved keywords of the repo grammar (filled by load_grammar)
+
+
+def must_quote(name):
+    return not re.fullmatch(r'[^\W\d]\w*', name) or name.lower() in KEYWORDS
+
+
 def quoted_ident_bare(text, printed):
-    """an identifier the input had to quote appears unquoted in the printed text"""
+    """an identifier the input had to quote (not a plain word, or a reserved keyword) appears
+    unquoted in the printed text"""
     for m in BACKTICK_RE.finditer(text):
         name = m.group(1).replace('``', '`')
+        if not must_quote(name):
+            continue
         if re.search(r'(?<![`\w])' + re.escape(name) + r'(?![`\w])', printed):
             return name
     return None
@@ -313,7 +326,7 @@ FINDINGS = [
             feat='internal-group'),
     Finding('C01-alias-empty-body', 'reparse', f'{CG}::visit_CreateAlias / _visit_CreateObject',
             'SDL/DDL alias declared with an empty block (`alias Foo { }`), which the parser accepts',
-            'printed `alias Foo;`, which the grammar rejects', sig=r"Missing ('\{'|':=')", printed=r'\balias\s+[^\s;{(]+\s*;'),
+            'printed `alias Foo;`, which the grammar rejects', printed=r'\balias\s+[^\s;{(]+\s*;'),
     Finding('C01-empty-shape', 'idem', f'{CG}::visit_Shape / visit_Path',
             'a Shape with no elements (`Foo { }`; upstream expects it to print as `Foo`)',
             'first print keeps traces of the shape (a trailing blank, or parentheses around it as a path head: `(() ).<x`); the re-parsed tree has no shape and prints without them',
@@ -321,16 +334,16 @@ FINDINGS = [
     Finding('C01-ddl-value-statement-bare', 'reparse', f'{CG}::_needs_parentheses (parent is a DDL node -> no parentheses)',
             'a SELECT/INSERT/UPDATE/DELETE/FOR/GROUP/WITH statement directly as an annotation value or an index/constraint argument of a DDL command',
             'printed without the parentheses the grammar requires: `create annotation a := select ...`, `create abstract index i(conf := select ...)`',
-            printed=r':=\s*(select|insert|update|delete|for|with|group)\b'),
+            feat='ddl-arg-statement'),
     Finding('C01-describe', 'reparse|same-ast', f'{CG}::visit_DescribeStmt',
             'DESCRIBE OBJECT <name>, DESCRIBE ... CONFIG statements',
             'printed as `describe <name> as DDL` / `describe DATABASE CONFIG as DDL`: rejected, or read back as DESCRIBE SCHEMA/ROLES',
             printed=r'(^|;)\s*describe\b'),
     Finding('C01-pointer-bases-in-body', 'reparse', f'{CG}::_ddl_add_pointer_bases', 'DDL (not SDL) `CREATE PROPERTY/LINK p EXTENDING b -> T`',
             'the bases are moved into the body as `extending b;`, which the DDL grammar rejects there', printed=r'\{\s*extending\b'),
-    Finding('C01-typeof-bare', 'reparse|same-ast', f'{CG}::visit_TypeOf', 'a TYPEOF type expression inside a cast `<...>` or as the target type of a pointer / global',
+    Finding('C01-typeof-bare', 'reparse|same-ast', f'{CG}::visit_TypeOf', 'a TYPEOF type expression inside a cast `<...>`, in collection subtypes / base type arguments, or as the target type of a pointer / global',
             'printed bare: `<TYPEOF x>y` reads `>` as greater-than; `create link l: TYPEOF x { ... }` reads the block as a shape',
-            feat=r'typeof-in-(cast|target)'),
+            feat='typeof-in-type-context'),
     Finding('C01-overloaded-optional', 'same-ast', f'{CG}::visit_CreateConcretePointer', 'SDL `overloaded optional <pointer>`',
             'OPTIONAL is not printed after OVERLOADED', sig=r'is_required\|False>None'),
     Finding('C01-dollar-quote-tail', 'reparse|same-ast', 'edb/edgeql/quote.py::dollar_quote_literal (C18 finding) via visit_Constant / visit_FunctionCode',
@@ -344,6 +357,13 @@ FINDINGS = [
             'from_function is printed as `using sql operator`', sig=r'OperatorCode\.from_function'),
     Finding('C01-cast-code', 'same-ast', f'{CG}::visit_CastCode', 'CREATE CAST with both USING SQL FUNCTION and USING SQL <code>', 'the code is dropped',
             sig=r'CastCode\.code\|str>None'),
+    Finding('C01-update-empty-set', 'reparse', f'{CG}::visit_UpdateQuery / _visit_shape', 'UPDATE x SET { } (empty shape)',
+            'printed `update x set ` with no braces', feat='update-empty-set'),
+    Finding('C01-sdl-constraint-on-without-params', 'same-ast', 'edb/edgeql/parser/grammar/sdl.py (abstract constraint without parameter list ignores ON (...)) + codegen.visit_CreateConstraint (empty parameter list not printed)',
+            'SDL `abstract constraint c() on (expr)` with an empty parameter list',
+            'printed without `()`; the SDL production without a parameter list discards the ON expression', sig=r'CreateConstraint\.subjectexpr\|.*>None'),
+    Finding('C01-config-insert-empty-shape', 'reparse', f'{CG}::visit_ConfigInsert', 'CONFIGURE ... INSERT T { } (empty shape)',
+            'printed `configure SESSION insert T;` with no braces', printed=r'configure\s+[^;]*\binsert\s+[^\s;{]+\s*;'),
 ]
 
 
@@ -436,3 +456,5 @@ def triage(argv):
 if __name__ == '__main__':
     if len(sys.argv) > 1 and sys.argv[1] == 'triage':
         triage(sys.argv[2:])
+    elif len(sys.argv) > 1 and sys.argv[1] == 'findings':
+        print(json.dumps([fd.entry() for fd in FINDINGS], indent=1))
